@@ -872,6 +872,16 @@ func (n *simConn) NewStream(ctx context.Context, desc *grpc.StreamDesc, method s
 func c14BackToBack(c *sim.RunCtx) {
 	t := c.T.Plan
 	objs := drawSimpleObjs(t, 3+t.Choose(4), "inst")
+	// half of the runs use another digest function than SHA-256 (three of them
+	// have a hash length that the legacy inference would take for SHA-256 or
+	// SHA-1: the function must travel with every request)
+	fn := remoteexecution.DigestFunction_SHA256
+	if t.Chance(1, 2) {
+		fn = AllDigestFunctions[t.Choose(len(AllDigestFunctions))]
+		for i := range objs {
+			objs[i].D = RefDigest("inst", fn, objs[i].Data)
+		}
+	}
 	clients := 1 + t.Choose(3)
 	var plans [][][2]int
 	for ci := 0; ci < clients; ci++ {
@@ -883,7 +893,7 @@ func c14BackToBack(c *sim.RunCtx) {
 	}
 	chunk := []int{1, 3, 8, 64}[t.Choose(4)]
 	failRate := []int{0, 0, 100}[t.Choose(3)]
-	desc := fmt.Sprintf("back-to-back clients=%d chunk=%d failRate=%d", clients, chunk, failRate)
+	desc := fmt.Sprintf("back-to-back clients=%d chunk=%d failRate=%d fn=%v", clients, chunk, failRate, fn)
 	c.Sample["case"] = desc
 	c.Note("case %s plans=%v", desc, plans)
 	injected := 0
